@@ -63,20 +63,43 @@ def tab_offsets(ctx, report, folder):
     lo_t, hi_t = min(tabs.values()), max(tabs.values())
     fn = ctx.index.get_function(SM, "_PositioningTracker.update_positioning")
     report.covered(fn)
-    win = [n for n in walk_no_nested(fn.node) if isinstance(n, ast.Compare) and len(n.ops) == 2
-           and re.fullmatch(r"col( \+ \d+)?", src(n.left)) and re.fullmatch(r"col \+ \d+", src(n.comparators[1]))]
-    if len(win) != 1:
-        raise AnalysisError("update_positioning: tab-offset window `col + a <= new_col <= col + b` not found")
-    c = win[0]
-    a = int((re.findall(r"\d+", src(c.left)) or ["0"])[0])
-    b = int(re.findall(r"\d+", src(c.comparators[1]))[0])
-    lo = a + (1 if isinstance(c.ops[0], ast.Lt) else 0)
-    hi = b - (1 if isinstance(c.ops[1], ast.Lt) else 0)
-    if not all(isinstance(o, (ast.Lt, ast.LtE)) for o in c.ops):
-        raise AnalysisError("update_positioning: window operators not recognised")
-    report.check((lo, hi) == (lo_t, hi_t), "R-TABLE-SIBLING", (fn, c),
+    # the window predicate: a boolean expression over the old and new (row, col); folded over the whole
+    # finite domain (15 rows x 32 columns for both addresses), independent of how it is spelled
+    unpack = {}
+    for n in walk_no_nested(fn.node):
+        if isinstance(n, ast.Assign) and isinstance(n.targets[0], ast.Tuple) and len(n.targets[0].elts) == 2 \
+                and all(isinstance(e, ast.Name) for e in n.targets[0].elts):
+            unpack[src(n.value)] = [e.id for e in n.targets[0].elts]
+    if len(unpack) != 2 or fn.params[1] not in unpack:
+        raise AnalysisError("update_positioning: the old and the new address are not unpacked into (row, col) pairs")
+    new_row, new_col = unpack[fn.params[1]]
+    row, col = next(v for k, v in unpack.items() if k != fn.params[1])
+    names = {row, col, new_row, new_col}
+    cands = []
+    for n in walk_no_nested(fn.node):
+        if isinstance(n, ast.Assign) and len(n.targets) == 1 and isinstance(n.targets[0], ast.Name):
+            free = {x.id for x in ast.walk(n.value) if isinstance(x, ast.Name)} - {"range", "abs", "int", "True", "False"}
+            if {col, new_col} <= free <= names:
+                cands.append(n)
+    if len(cands) != 1:
+        raise AnalysisError(f"update_positioning: tab-offset window predicate not found ({len(cands)} candidates)")
+    c = cands[0]
+    accepted, other_row = set(), False
+    for r0 in (1, 8, 15):
+        for c0 in range(32):
+            for c1 in range(32):
+                try:
+                    if folder.eval_in(fn.module, c.value, {row: r0, col: c0, new_row: r0, new_col: c1}):
+                        accepted.add(c1 - c0)
+                    if r0 < 15 and folder.eval_in(fn.module, c.value, {row: r0, col: c0, new_row: r0 + 1, new_col: c1}):
+                        other_row = True
+                except AnalysisError as e:
+                    raise AnalysisError(f"update_positioning: window predicate not foldable: {e}")
+    report.check(accepted == set(tabs.values()) and not other_row, "R-TABLE-SIBLING", (fn, c),
                  "the tab-offset window covers exactly the offsets of PAC_TAB_OFFSET_COMMANDS",
-                 {"window": src(c), "columns_accepted": [lo, hi], "table_offsets": sorted(tabs.values())}, "4")
+                 {"predicate": src(c.value), "column_differences_accepted": sorted(accepted),
+                  "accepted_on_another_row": other_row, "table_offsets": sorted(tabs.values()),
+                  "evaluations": 3 * 32 * 32 * 2}, "4")
     up = ctx.index.get_function(SPC, "InstructionNodeCreator._update_positioning")
     report.covered(up)
     st = [n for n in walk_no_nested(up.node) if isinstance(n, ast.Assign) and src(n.targets[0]) == "positioning"
